@@ -64,9 +64,9 @@ Keys(m) == {e[1] : e \in m}
 MergeTyped(src, dst) == dst \cup {e \in src : e[1] \notin Keys(dst)}
 
 \* what the config file writes into the replace-type map of each config section
-Written(c, lv, sk, tg) ==
-  LET m1 == {<<KeyOf(sk), ToOf(tg)>>}
-      m2 == {<<KeyOf(sk), To2Of(tg)>>}
+Written(c, lv, key, tg) ==
+  LET m1 == {<<key, ToOf(tg)>>}
+      m2 == {<<key, To2Of(tg)>>}
   IN CASE lv = "root"    -> IF c = "root" THEN m1 ELSE {}
        [] lv = "pkg"     -> IF c = "pkg" THEN m1 ELSE {}
        [] lv = "iface"   -> IF c = "i1" THEN m1 ELSE {}
@@ -82,8 +82,9 @@ Init ==
   /\ level \in Levels /\ place \in Placements
   /\ (Wanted # {} => dims \in Wanted)
   /\ pc = "root"
+  /\ (pos \in GenericPos => srckind = "named")            \* the local configured type has one spelling
   /\ (level \in {"iface2x", "iface2y"} => other \in {"ifaceT", "ifaceU"})     \* a config for I2 needs I2
-  /\ cfg = [c \in {"root", "pkg", "i1", "i2", "e0", "e1"} |-> Written(c, level, srckind, target)]
+  /\ cfg = [c \in {"root", "pkg", "i1", "i2", "e0", "e1"} |-> Written(c, level, KeyFor(pos, srckind), target)]
   /\ out = [mocks |-> << >>, req |-> {}, forb |-> {}]
 
 \* RootConfig.Initialize: mergeConfigs(root, pkg)                      config.go:338-360
@@ -151,7 +152,7 @@ ImplConforms == pc = "done" => out \in TheAccept
 \* the contract is satisfiable, always demands a change on a covered exact position, never touches uncovered mocks
 ContractSane == pc = "done" /\ place = Rep(Placements) =>
   /\ TheAccept # {}
-  /\ (pos \in {"param", "result", "both", "unnamed", "qualparam", "mixed"} => MustChange(pos, other, srckind, target, level))
+  /\ (pos \in {"param", "result", "both", "unnamed", "qualparam", "mixed", "tparamreal"} => MustChange(pos, other, srckind, target, level))
   /\ \A oc \in TheAccept : \A i \in DOMAIN oc.mocks :
         ~Covered(MocksOf(other, level)[i], level) => oc.mocks[i] = TheBase.mocks[i]
   /\ \A oc \in TheAccept : oc.req \cap oc.forb = {}
@@ -170,7 +171,7 @@ SameEffectAtEveryLevel == pc = "done" /\ place = Rep(Placements) =>
 CaseRecord ==
   [pos |-> pos, other |-> other, srckind |-> srckind, target |-> target, level |-> level,
    place |-> place,
-   key |-> [p |-> "orig", n |-> KeyNameOf(srckind)], to |-> ToOf(target), to2 |-> To2Of(target),
+   key |-> [p |-> KeyFor(pos, srckind)[1], n |-> KeyFor(pos, srckind)[2]], to |-> ToOf(target), to2 |-> To2Of(target),
    ifaces |-> Ifaces(pos, other, srckind),
    mocks |-> MocksOf(other, level),
    base |-> TheBase, accept |-> TheAccept, impl |-> out,
@@ -178,8 +179,10 @@ CaseRecord ==
 
 Emit ==
   IF pc = "done"
-  THEN IF Wanted = {} THEN PrintT(<<"DIM", ToJson([d |-> dims, predicted |-> (out \notin TheAccept),
-                                                     must |-> MustChange(pos, other, srckind, target, level)])>>)
+  THEN IF Wanted = {}
+       THEN LET acc == TheAccept
+                bm  == TheBase.mocks
+            IN PrintT(<<"DIM", ToJson([d |-> dims, predicted |-> (out \notin acc), must |-> (\A oc \in acc : oc.mocks # bm)])>>)
        ELSE PrintT(<<"CASE", ToJson(CaseRecord)>>)
   ELSE TRUE
 =============================================================================
